@@ -610,3 +610,48 @@ def rule_z_codec(db, chk, cfg, rule="LAYOUT.z-codec"):
                     chk.violation(rule, f.qual, "%s|reader" % f.sig[:40], "the Z slot is read as `%s`: not a bit copy into z_type (the writers store "
                                   "the slot with Reinterpret), so Z does not survive the round trip" % canon(x)[:80], where(x), cfg=cfg)
     return n
+
+
+def rule_cursor_threaded(db, chk, cfg, rule="LAYOUT.cursor"):
+    """The writers share one cursor into the flat array.  A writer either takes it by reference (then every call advances the caller's
+    cursor by construction), or takes it by value and hands the next position back - then every call must store the returned position
+    into the very cursor it passed, otherwise the next record overwrites the one just written.  Decided for every function of
+    clipper.export.h that has a pointer-to-element parameter and is called from the file."""
+    n = 0
+    fns = [f for f in db.funcs if f.body is not None and not f.is_pattern and (f.file or "").endswith("clipper.export.h")]
+    for g in fns:
+        ret_t = g.sig.split("(")[0].strip()
+        cur_idx = None
+        for i, p0 in enumerate(g.params):
+            t = qt(p0).strip()
+            if t.endswith("*&"):
+                cur_idx = ("ref", i)
+            elif t.endswith("*") and t.replace("const ", "") == ret_t.replace("const ", "") and any(
+                    y.get("kind") == "ReturnStmt" and kids(y) and canon(kids(y)[0]) == p0.get("name") for y in walk(g.body)):
+                cur_idx = ("val", i)
+        if cur_idx is None:
+            continue
+        for f in fns:
+            for c in walk(f.body):
+                if c.get("kind") != "CallExpr" or db.callee_func(c) is None or db.callee_func(c).id != g.id:
+                    continue
+                n += 1
+                ok = True
+                why = ""
+                if cur_idx[0] == "val":
+                    arg = canon(db.call_args(c)[cur_idx[1]])
+                    # find the assignment this call is the right-hand side of
+                    ok = False
+                    for y in walk(f.body):
+                        if y.get("kind") == "BinaryOperator" and y.get("opcode") == "=" and strip(kids(y)[1]) is c and canon(kids(y)[0]) == arg:
+                            ok = True
+                        if y.get("kind") == "ReturnStmt" and kids(y) and strip(kids(y)[0]) is c:
+                            ok = True
+                    why = "the next write position it returns is not stored back into `%s`" % arg
+                chk.instance(rule, {"writer": g.qual, "caller": f.qual, "cursor_passed": cur_idx[0], "call": canon(c)[:60], "cfg": cfg}, ok=ok)
+                if not ok:
+                    chk.violation(rule, f.qual, "%s|%s" % (g.name, canon(c)[:40]), "`%s` in %s: %s takes the write cursor by value and %s: the following record is "
+                                  "written over this one" % (canon(c)[:70], f.qual, g.name, why), where(c), cfg=cfg)
+    if n < 2:
+        raise AnalysisBroken("LAYOUT.cursor: only %d calls of cursor-taking writers found" % n)
+    return n
